@@ -51,3 +51,8 @@ def lemma_tiling(b, j):
 def lemma_ideal_mono(a, b, c, r):
     # requires 0 <= a <= b, c >= 0 ; ensures a*c + min(a, r) <= b*c + min(b, r), and with a < b the gap is at least c
     pass
+
+
+def lemma_divmod_any(d, b):
+    # requires b >= 1 (any integer d) ; ensures d == b * (d // b) + d % b, 0 <= d % b < b  (Python's floor division)
+    pass
